@@ -42,6 +42,9 @@ type c22Op struct {
 	Kind string // install | use | remove | list
 	Key  string // base64 text handed to the KeyManager
 	Desc string // human readable key class
+	// Fault: the keyring file cannot be written while the request is handled the first time
+	// (its directory is moved away); the operator then repeats the same request
+	Fault bool
 }
 
 type c22State struct {
@@ -176,6 +179,16 @@ func c22Gen(rng *rand.Rand) c22Case {
 	badB64 := []string{"!!!not-base64!!!", "abc", "AAAA=AAA", "Zm9v YmFy", "Zm9vYmFy=", "\x00\x01"}
 	nOps := 1 + rng.Intn(12)
 	cur := append([]string(nil), c.Init...) // rough tracking to bias towards present keys
+	if rng.Intn(15) == 0 {
+		// a long history that fills the ring: 36-46 distinct keys installed one after the other
+		// (a list-keys reply holds about 40), then the usual mix
+		for i, n := 0, 36+rng.Intn(11); i < n; i++ {
+			k := make([]byte, sizes[i%3])
+			rng.Read(k)
+			c.Ops = append(c.Ops, c22Op{Kind: "install", Key: c22B64(k), Desc: fmt.Sprintf("fill%d", i)})
+			cur = append(cur, c22B64(k))
+		}
+	}
 	for i := 0; i < nOps; i++ {
 		var op c22Op
 		switch x := rng.Intn(20); {
@@ -209,6 +222,10 @@ func c22Gen(rng *rand.Rand) c22Case {
 		default:
 			op.Key, op.Desc = badB64[rng.Intn(len(badB64))], "badb64"
 		}
+		if op.Kind != "list" && rng.Intn(12) == 0 {
+			op.Fault = true
+			op.Desc += "+write-fault-then-repeat"
+		}
 		c.Ops = append(c.Ops, op)
 		// keep `cur` roughly in step (only a generation bias; the oracle uses c22Model)
 		m := &c22Model{}
@@ -241,6 +258,7 @@ type c22Result struct {
 	changed    int
 	rewrites   int // file content (bytes) differed after an op
 	modelAgree int
+	faults     int
 	trace      []string
 }
 
@@ -306,6 +324,23 @@ func c22Run(t *testing.T, c c22Case, dir string, seed int64) c22Result {
 		for i, op := range c.Ops {
 			var err error
 			var kr *serf.KeyResponse
+			if op.Fault {
+				// first attempt while the file cannot be written; only survival is judged here
+				away := dir + ".away"
+				if os.Rename(dir, away) == nil {
+					switch op.Kind {
+					case "install":
+						_, _ = km.InstallKey(op.Key)
+					case "use":
+						_, _ = km.UseKey(op.Key)
+					case "remove":
+						_, _ = km.RemoveKey(op.Key)
+					}
+					synctest.Wait()
+					_ = os.Rename(away, dir)
+					res.faults++
+				}
+			}
 			switch op.Kind {
 			case "install":
 				kr, err = km.InstallKey(op.Key)
@@ -387,6 +422,7 @@ func TestC22(t *testing.T) {
 		r.Count("file_rewrites_with_new_content", res.rewrites)
 		r.Count("file_reloads_compared", res.ops+1)
 		r.Count("model_agreements", res.modelAgree)
+		r.Count("requests_repeated_after_a_failed_file_write", res.faults)
 		r.Max("max_requests_in_sequence", int64(res.ops))
 		if res.inconc != "" {
 			r.Inconclusive(fmt.Sprintf("case %d: %s", ci, res.inconc))
